@@ -350,3 +350,139 @@ package rux
 //@   modifies held(c.lock), rank(_), lclock(c.list), lback(c.list)
 //@   ensures inv: cacheInv(c) && held(c.lock) == 0
 //@   ensures result == (k in c.hashMap)
+
+// ---------------------------------------------------------------------------
+// strings package (assumed contracts; byte strings, see DESIGN.md A-str)
+//
+//@ extern strings.TrimSpace(s) (r)
+//@   pure
+//@   ensures s == uf("trimspace.l", string, s) ++ r ++ uf("trimspace.r", string, s)
+//@   ensures allspace(uf("trimspace.l", string, s)) && allspace(uf("trimspace.r", string, s))
+//@   ensures r == "" || (!isspace(at(r, 0)) && !isspace(at(r, len(r) - 1)))
+//@ extern strings.TrimRight(s, cutset) (r)
+//@   requires len(cutset) == 1
+//@   pure
+//@   ensures s == r ++ uf("trimright.t", string, s, cutset) && allof(uf("trimright.t", string, s, cutset), cutset)
+//@   ensures r == "" || at(r, len(r) - 1) != at(cutset, 0)
+//@ extern strings.TrimLeft(s, cutset) (r)
+//@   requires len(cutset) == 1
+//@   pure
+//@   ensures s == uf("trimleft.t", string, s, cutset) ++ r && allof(uf("trimleft.t", string, s, cutset), cutset)
+//@   ensures r == "" || at(r, 0) != at(cutset, 0)
+//@ extern strings.Index(s, substr) (r)
+//@   pure
+//@   ensures r == indexof(s, substr)
+//@ extern strings.IndexByte(s, c) (r)
+//@   pure
+//@   ensures r == indexof(s, chr(c))
+//@ extern strings.Contains(s, substr) (r)
+//@   pure
+//@   ensures r == contains(s, substr)
+//@ extern strings.HasPrefix(s, prefix) (r)
+//@   pure
+//@   ensures r == prefixof(prefix, s)
+//@ extern strings.HasSuffix(s, suffix) (r)
+//@   pure
+//@   ensures r == suffixof(suffix, s)
+//@ extern strings.TrimPrefix(s, prefix) (r)
+//@   pure
+//@   ensures r == (prefixof(prefix, s) ? substr(s, len(prefix), len(s) - len(prefix)) : s)
+//@ extern strings.TrimSuffix(s, suffix) (r)
+//@   pure
+//@   ensures r == (suffixof(suffix, s) ? substr(s, 0, len(s) - len(suffix)) : s)
+//@ extern strings.LastIndex(s, substr) (r)
+//@   pure
+//@   ensures r == uf("lastindex", int, s, substr) && -1 <= r && r <= len(s) - len(substr)
+//@ extern strings.ToUpper(s) (r)
+//@   pure
+//@   ensures r == uf("upper", string, s) && len(r) == len(s)
+//@ extern strings.ToLower(s) (r)
+//@   pure
+//@   ensures r == uf("lower", string, s) && len(r) == len(s)
+
+// ---------------------------------------------------------------------------
+// Path normalisation (C11, C13)
+//
+//@ spec NF(s string, strict bool) bool = len(s) >= 1 && at(s, 0) == '/' && (len(s) > 1 ==> at(s, 1) != '/')
+//@     && (!strict && len(s) > 1 ==> at(s, len(s) - 1) != '/')
+//
+//@ func (*Router).formatPath [C11, C13]
+//@   ensures NF: NF(result, r.strictLastSlash)
+//@   ensures root: (path == "" || path == "/") ==> result == "/"
+//
+//@ func simpleFmtPath [C11, C13]
+//@   ensures leading_slash: len(result) >= 1 && at(result, 0) == '/' && (len(result) > 1 ==> at(result, 1) != '/')
+
+// ---------------------------------------------------------------------------
+// Route validation at registration (C13)
+//
+//@ extern github.com/gookit/goutil.Panicf(format, v)
+//@   pure
+//@   panics *
+//@   ensures false
+//@ extern strings.Join(elems, sep) (r)
+//@   pure
+//@   ensures r == uf("join", string, elemsrow(elems), off(elems), len(elems), sep)
+//@   ensures len(elems) == 9 ==> r == join(elems, sep, 9)
+//
+//@ spec isMethod(m string) bool = m == "GET" || m == "POST" || m == "PUT" || m == "PATCH" || m == "DELETE" || m == "OPTIONS"
+//@     || m == "HEAD" || m == "CONNECT" || m == "TRACE"
+//@ spec methodsTable() bool = len(anyMethods) == 9 && anyMethods[0] == "GET" && anyMethods[1] == "POST" && anyMethods[2] == "PUT"
+//@     && anyMethods[3] == "PATCH" && anyMethods[4] == "DELETE" && anyMethods[5] == "OPTIONS" && anyMethods[6] == "HEAD"
+//@     && anyMethods[7] == "CONNECT" && anyMethods[8] == "TRACE"
+//
+//@ func (*Route).goodInfo [C13]
+//@   requires methodsTable()
+//@   panics *
+//@   ensures handler_set: r.handler != nil
+//@   ensures methods_nonempty: len(r.methods) > 0
+//@   ensures methods_exact: forall i int :: 0 <= i && i < len(r.methods) ==> isMethod(r.methods[i])
+//@ loop (*Route).goodInfo #0
+//@   vars rangeindex
+//@   invariant -1 <= rangeindex && rangeindex < len(r.methods)
+//@   invariant forall j int :: 0 <= j && j <= rangeindex ==> isMethod(r.methods[j])
+//@   invariant r.handler != nil && len(r.methods) > 0
+//
+//@ func isSupportedMethod [C13]
+//@   requires methodsTable()
+//@   ensures exact: result == isMethod(name)
+//@ loop isSupportedMethod #0
+//@   vars rangeindex
+//@   invariant -1 <= rangeindex && rangeindex < 9
+//@   invariant forall j int :: 0 <= j && j <= rangeindex ==> anyMethods[j] != name
+
+// fp(path, strict): the value of formatPath as a mathematical function (formatPath is pure and
+// deterministic; `defines` clauses are assumed at call sites and listed as assumptions).
+//@ spec fp(path string, strict bool) string = uf("fp", string, path, strict)
+//@ spec sfp(path string) string = uf("sfp", string, path)
+
+// ---------------------------------------------------------------------------
+// Middleware lists (C04, C12, C13)
+//
+//@ spec seqEq(a []HandlerFunc, b []HandlerFunc, n int) bool = forall i int :: 0 <= i && i < n ==> a[i] == b[i]
+//
+//@ func combineHandlers [C04, C12]
+//@   ensures fresh: fresh(arr(result)) && arr(result) != nil
+//@   ensures length: len(result) == len(oldHandlers) + len(newHandlers)
+//@   ensures first_part: forall i int :: 0 <= i && i < len(oldHandlers) ==> result[i] == oldHandlers[i]
+//@   ensures second_part: forall i int :: 0 <= i && i < len(newHandlers) ==> result[len(oldHandlers) + i] == newHandlers[i]
+//
+//@ func (*Route).Use [C04, C05, C13]
+//@   panics len(r.handlers) + len(middleware) >= 63
+//@   modifies r.handlers, elems(r.handlers)
+//@   ensures limit: len(r.handlers) < 63 && result == r
+//@   ensures appended: len(r.handlers) == old(len(r.handlers)) + len(middleware)
+//@   ensures prefix_kept: forall i int :: 0 <= i && i < old(len(r.handlers)) ==> r.handlers[i] == old(r.handlers[i])
+//@   ensures suffix_is_new: forall i int :: 0 <= i && i < len(middleware) ==> r.handlers[old(len(r.handlers)) + i] == old(middleware[i])
+//@   ensures must_reject: !(old(len(r.handlers)) + len(middleware) >= 63)
+//
+//@ func (*Router).Use [C04, C12]
+//@   modifies r.handlers, elems(r.handlers), r.currentGroupHandlers, elems(r.currentGroupHandlers)
+//@   ensures in_group_only_group_list: old(r.currentGroupPrefix) != "" ==> r.handlers == old(r.handlers)
+//@       && len(r.currentGroupHandlers) == old(len(r.currentGroupHandlers)) + len(middles)
+//@       && (forall i int :: 0 <= i && i < old(len(r.currentGroupHandlers)) ==> r.currentGroupHandlers[i] == old(r.currentGroupHandlers[i]))
+//@       && (forall i int :: 0 <= i && i < len(middles) ==> r.currentGroupHandlers[old(len(r.currentGroupHandlers)) + i] == old(middles[i]))
+//@   ensures top_level_only_global_list: old(r.currentGroupPrefix) == "" ==> r.currentGroupHandlers == old(r.currentGroupHandlers)
+//@       && len(r.handlers) == old(len(r.handlers)) + len(middles)
+//@       && (forall i int :: 0 <= i && i < old(len(r.handlers)) ==> r.handlers[i] == old(r.handlers[i]))
+//@       && (forall i int :: 0 <= i && i < len(middles) ==> r.handlers[old(len(r.handlers)) + i] == old(middles[i]))
